@@ -25,7 +25,7 @@ def lean_static_lemmas(tier):
     except Exception as e:
         return [{"name": "C03/lean/Lemmas", "status": "undecided", "backend": "lean", "clause": "static lemma file", "note": repr(e)}]
     errs = [l for l in (pr.stdout + pr.stderr).splitlines() if "error" in l or "sorry" in l]
-    names = ["fermat_inverse", "inverse_zero", "sqrt_three_mod_four", "sqrt_unique_up_to_sign", "secp_p_mod_four"]
+    names = ["fermat_inverse", "inverse_zero", "sqrt_three_mod_four", "sqrt_unique_up_to_sign", "secp_p_mod_four", "nsmul_binary_step"]
     ok = pr.returncode == 0 and not errs
     return [{"name": "C03/lean/Lemmas/" + n, "status": "ok" if ok else "fail", "backend": "lean", "secs": round(time.time() - t0, 1),
              "clause": "Lean/Mathlib lemma %s (verif/lean/Lemmas.lean)" % n, "confirmed": False,
@@ -152,7 +152,7 @@ def s256_scalars(seed, tier):
 TABLES = [("lean-point-add", lean_point_add), ("lean-static-lemmas", lean_static_lemmas), ("two-torsion-free", two_torsion_free)]
 BOUNDED = [("rt-contracts", fuzz_job(CONTRACTS)), ("small-fields", small_fields), ("s256-scalars", s256_scalars)]
 JOB_TIMEOUT = {"quick": 400, "thorough": 1500}
-CATEGORY = "other"
+CATEGORY = "proof"
 TECHNIQUE = ("contract-based deductive verification: formulas of the real Point.__add__ extracted by abstract-field symbolic execution and proved equal to "
              "Mathlib's WeierstrassCurve.Affine.Point addition in Lean 4 (so the group axioms are inherited); pyvc + z3 + zn_ring for FieldElement arithmetic and SEC/x-only encodings; "
              "exhaustive small-field group-law tables as bounded companion")
@@ -161,12 +161,14 @@ TRUSTED_BASE = ["pyvc symbolic executor incl. abstract-field mode (verif/pyvc/fi
                 "discrete-log model for the encoding round trips (A-PRIME)", "spec verif/specs/curve.py"]
 ASSUMPTIONS = ["A-ENGINE", "A-SPEC", "A-PRIME (N prime and the group order: not proved here)",
                "curve nonsingular and characteristic != 2 (hypotheses of the Lean theorems; true for secp256k1 and for the generic class over F_p, p not in {2,3,7}, b=7)",
-               "Point.__rmul__ (double-and-add loop) = nsmul: NOT proved deductively (loop invariant over an abstract group not built); covered only by the bounded companion (all scalars 0..2#E+1 on every curve over F_p, p<=23/31, boundary scalars on secp256k1)",
+               "Point.__rmul__ (double-and-add loop) == nsmul is proved for every coefficient >= 0 by a loop invariant over an abstract commutative monoid; the monoid-law instances and the step lemma c*Q = (c/2)*(Q+Q) + (c%2)*Q handed to z3 are Lean/Mathlib facts (lean/Lemmas.lean: nsmul_binary_step); negative coefficients do not terminate on the generic class (termination is not verified); S256Point.__rmul__ reduces mod N first, which is correct because N is the group order (A-PRIME)",
+               "(a+b)G = aG + bG and a(bG) = (ab)G then follow from Mathlib's add_nsmul / mul_nsmul for the group of section C03.3 (library lemmas, not re-derived here)",
                "FieldElement.__pow__ for symbolic exponents: bounded only", "cecc.py back end not verified", "termination not verified"]
-EXPLANATION = ("Group law: the six paths of the real Point.__add__ (chord, tangent, inverse, doubling a 2-torsion point, and the two constructor on-curve checks, "
+EXPLANATION = ("Scalar multiplication: the double-and-add loop of the real Point.__rmul__ equals nsmul for all coefficients >= 0 (invariant result + coef*current == coefficient*self). "
+               "Group law: the six paths of the real Point.__add__ (chord, tangent, inverse, doubling a 2-torsion point, and the two constructor on-curve checks, "
                "which are proved unreachable) are Mathlib's point addition (Lean); identity cases by inspection of the extracted result. Field arithmetic and SEC / x-only "
-               "encodings: all inputs, pyvc+z3. Scalar multiplication (__rmul__) is only bounded. Hence category 'other'.")
+               "encodings: all inputs, pyvc+z3. Exhaustive small-field tables and boundary scalars on secp256k1 as bounded companion.")
 LEVEL_TEXT = ("Point addition formulas of the real code proved equal to Mathlib's elliptic-curve group addition for every field and curve (Lean), FieldElement "
               "add/sub/mul/div and the SEC/x-only codecs proved for all inputs (accepting exactly prefixes 02/03/04 with the right length); scalar "
-              "multiplication by double-and-add is covered by exhaustive small-field tables and boundary scalars only (bounded), so the claim is 'other', not 'proof'.")
-LEVEL_NOTE = "Lean/Mathlib trusted; curve nonsingular, char != 2; A-PRIME for encodings; __rmul__ loop bounded only; cecc unverified"
+              "multiplication by double-and-add proved equal to nsmul for every non-negative coefficient by an inductive loop invariant in an abstract commutative monoid.")
+LEVEL_NOTE = "Lean/Mathlib trusted; curve nonsingular, char != 2; A-PRIME (order N, cyclic) for encodings and for reducing scalars mod N; FieldElement.__pow__ with symbolic exponent bounded only; termination not verified; cecc unverified"
